@@ -72,10 +72,10 @@ func genWTMsg(t *rapid.T, W int, i int, known bool, col *Collector) wtMsgSpec {
 
 func TestC13RoundTrip(t *testing.T) {
 	col := NewCollector("TestC13RoundTrip",
-		"rapid: sequences of 1-8 messages (kind, boundary-biased length, write path, chunking) through a writer Conn with drawn write-buffer size/pool/role into an in-memory stream read by a peer Conn with drawn read-buffer size and read fragmentation; oracle: ReadMessage sequence == written sequence. non-trivial: some message longer than the write buffer, or written in >1 chunk, or read fragmentation finer than a frame header (<=8 bytes)").Use(t)
+		"rapid: sequences of 1-8 messages (kind, boundary-biased length, write path, chunking) through a writer Conn with drawn write-buffer size/pool/role into an in-memory stream read by a peer Conn with drawn read-buffer size and read fragmentation, the stream's end reported after or together with the last bytes; optionally a second connection sharing the buffer pool with a message in flight at the same time (two open writers, alternating chunks); oracle: ReadMessage sequence == written sequence. non-trivial: some message longer than the write buffer, or written in >1 chunk, or read fragmentation finer than a frame header (<=8 bytes)").Use(t)
 	known := isKnown("C13", sigWTSplit)
 	rapid.Check(t, propC13(col, known))
-	col.RequireClasses(t, "msg>W", "chunked", "read.frag<=8", "path.NextWriter+ReadFrom", "path.WritePreparedMessage")
+	col.RequireClasses(t, "msg>W", "chunked", "read.frag<=8", "path.NextWriter+ReadFrom", "path.WritePreparedMessage", "two-connections-sharing-the-pool", "end-with-last-bytes=true")
 }
 
 // TestC13KnownSplit is the deterministic demonstration of the recorded
@@ -173,6 +173,8 @@ func propC13(col *Collector, known bool) func(rt *rapid.T) {
 
 		pipe := newHalfPipe()
 		pipe.frag = frag
+		// the peer ends the stream after its last message; the carrier may report that end together with the last bytes
+		pipe.endWithData = rapid.Bool().Draw(rt, "endWithData")
 		var pool webtrans.BufferPool
 		mp := &memPool{}
 		if usePool {
@@ -192,6 +194,50 @@ func propC13(col *Collector, known bool) func(rt *rapid.T) {
 			}
 			want = append(want, wm{m.Bin, pl})
 		}
+		// a second connection that shares the buffer pool: two messages in flight at once, one per connection,
+		// written in alternating chunks (two open writers); each peer must receive its own bytes
+		sharedPool := usePool && rapid.Bool().Draw(rt, "secondConnSharingThePool")
+		var pipeB *halfPipe
+		var wantA2, wantB []byte
+		if sharedPool {
+			pipeB = newHalfPipe()
+			wcB := webtrans.NewConn(nil, &memWTStream{out: pipeB, in: newHalfPipe()}, isServer, 0, W, pool, nil, nil)
+			la := rapid.IntRange(1, 2*eW).Draw(rt, "pairLenA")
+			lb := rapid.IntRange(1, 2*eW).Draw(rt, "pairLenB")
+			wantA2, wantB = makePayload(la, 0xa1), makePayload(lb, 0xb2)
+			chunk := rapid.IntRange(1, eW).Draw(rt, "pairChunk")
+			wa, err := wc.NextWriter(webtrans.BinaryMessage)
+			if err != nil {
+				rt.Fatalf("NextWriter A: %v", err)
+			}
+			wb, err := wcB.NextWriter(webtrans.BinaryMessage)
+			if err != nil {
+				rt.Fatalf("NextWriter B: %v", err)
+			}
+			ra, rb := wantA2, wantB
+			for len(ra) > 0 || len(rb) > 0 {
+				if n := min(chunk, len(ra)); n > 0 {
+					if _, err := wa.Write(ra[:n]); err != nil {
+						rt.Fatalf("write A: %v", err)
+					}
+					ra = ra[n:]
+				}
+				if n := min(chunk, len(rb)); n > 0 {
+					if _, err := wb.Write(rb[:n]); err != nil {
+						rt.Fatalf("write B: %v", err)
+					}
+					rb = rb[n:]
+				}
+			}
+			if err := wa.Close(); err != nil {
+				rt.Fatalf("close A: %v", err)
+			}
+			if err := wb.Close(); err != nil {
+				rt.Fatalf("close B: %v", err)
+			}
+			want = append(want, wm{true, wantA2})
+			pipeB.CloseWrite()
+		}
 		pipe.CloseWrite()
 		var got []wm
 		for i := 0; i < len(want)+3; i++ {
@@ -202,7 +248,15 @@ func propC13(col *Collector, known bool) func(rt *rapid.T) {
 			got = append(got, wm{mt == webtrans.BinaryMessage, data})
 		}
 		nontrivial := false
-		classes := []string{fmt.Sprintf("role.server=%v", isServer), fmt.Sprintf("pool=%v", usePool)}
+		classes := []string{fmt.Sprintf("role.server=%v", isServer), fmt.Sprintf("pool=%v", usePool), fmt.Sprintf("end-with-last-bytes=%v", pipe.endWithData)}
+		if sharedPool {
+			classes = append(classes, "two-connections-sharing-the-pool")
+			rcB := webtrans.NewConn(nil, &memWTStream{in: pipeB, out: newHalfPipe()}, !isServer, rbs, 0, nil, nil, nil)
+			mt, data, err := rcB.ReadMessage()
+			if err != nil || mt != webtrans.BinaryMessage || !bytes.Equal(data, wantB) {
+				rt.Fatalf("second connection (sharing the buffer pool): wrote %d bytes, its peer read kind=%d len=%d err=%v equal=%v", len(wantB), mt, len(data), err, bytes.Equal(data, wantB))
+			}
+		}
 		if len(frag) > 0 && frag[0] <= 8 {
 			nontrivial = true
 			classes = append(classes, "read.frag<=8")
@@ -229,7 +283,11 @@ func propC13(col *Collector, known bool) func(rt *rapid.T) {
 		}
 		for i := range want {
 			if got[i].bin != want[i].bin || !bytes.Equal(got[i].data, want[i].data) {
-				rt.Fatalf("message %d %v: got bin=%v len=%d (equal=%v)", i, msgs[i], got[i].bin, len(got[i].data), bytes.Equal(got[i].data, want[i].data))
+				what := "the message written while the second connection's writer was open"
+				if i < len(msgs) {
+					what = fmt.Sprint(msgs[i])
+				}
+				rt.Fatalf("message %d %s: got bin=%v len=%d (equal=%v)", i, what, got[i].bin, len(got[i].data), bytes.Equal(got[i].data, want[i].data))
 			}
 		}
 		_ = mp
